@@ -2,7 +2,10 @@ use crate::{
     emulator::Emulator,
     error::{SnapshotLoadError, SnapshotSaveError},
     host::{DataRecorder, Host, LoadableAsset, SeekFrom, SeekableAsset},
-    zx::{joy::kempston, mouse::kempston::KempstonMouse, video::colors::ZXColor},
+    zx::{
+        joy::kempston, machine::ZXMachine, mouse::kempston::KempstonMouse,
+        video::colors::ZXColor,
+    },
     Result,
 };
 
@@ -350,6 +353,10 @@ where
 
     let machine_id = header[6] as u32;
     if machine_id > ZXST_MID_128K {
+        return Err(SnapshotLoadError::MachineNotSupported.into());
+    }
+    // Snapshot of the other model can't be applied: RAM layouts differ
+    if (machine_id == ZXST_MID_128K) != (emulator.settings.machine == ZXMachine::Sinclair128K) {
         return Err(SnapshotLoadError::MachineNotSupported.into());
     }
 
